@@ -83,6 +83,9 @@ MAX_PATHS = 300
 def replay(obligation, witness):
     """Native oracle: concrete calls on the real tag class, comparing the reported value before/after with the listener's record."""
     import contracts.c36_native as n
+    if "collect_tag_updates" in obligation or "notify_all_tags" in obligation:
+        r = n.report_building()
+        return {"confirmed": bool(r.get("violated")), **r}
     meth = obligation.split("/")[1]
     cls, m = meth.split(".")[-2], meth.split(".")[-1]
     if cls in ("BlockTimeTag", "ScopeTimeTag") and m in ("on_tick",):
@@ -298,3 +301,13 @@ collect_snapshot = Contract(
 
 CONTRACTS = CONTRACTS + [collect, notify_all_c, collect_snapshot]
 TARGETS = [c.key for c in CONTRACTS]
+
+
+def _nat_report():
+    import contracts.c36_native as n
+    r = n.report_building()
+    return {"ok": not r["violated"], "observation": r}
+
+
+NATIVE = [("native:report-building-on-the-real-engine", _nat_report)]
+BOUNDED = BOUNDED + ["one native scenario through the real Engine and EngineMessageBuilder (duplicate queue entry, value changed after queuing, snapshot): bounded, not counted"]
